@@ -61,7 +61,31 @@ def metamorphic(ctx):
         ctx.oracle_fail("noise beyond the hard bound 17 sd", {"max": max(map(abs, noises))}, "bound")
 
 
+def bucket_identity(ctx):
+    """'changing the bucket yields unrelated noise': two single-point buckets whose values differ only from the 11th significant digit on,
+    same salt, same column name, same entities — their released counts must not coincide systematically."""
+    import pandas as pd
+    from syndiffix.forest import Forest
+    from syndiffix.counters import UniquePidCountersFactory
+    from syndiffix.common import AnonymizationParams, BucketizationParams
+    R = random.Random(ctx.seed * 29 + 11)
+    S = ctx.stream("O-bucket-identity", "root counts of two constant columns v and v*(1+1e-11) (same name, salt, 60 rows) over many salts; non-trivial = every pair")
+    same = tot = 0
+    for _ in range(ctx.scale(40, 200)):
+        v = R.choice([0.3, 0.123456789, 0.77, 1e-7, 5e-6]); v2 = v * (1 + 1e-11)
+        ap = AnonymizationParams(salt=R.getrandbits(64).to_bytes(8, "little"), layer_noise_sd=3.0)
+        cnt = []
+        for val in (v, v2):
+            F = Forest(ap, BucketizationParams(), UniquePidCountersFactory(), pd.DataFrame({"RowIndex": range(1, 61)}), pd.DataFrame({"c": [val] * 60}))
+            cnt.append(F.get_tree((0,)).noisy_count())
+        tot += 1; same += cnt[0] == cnt[1]
+        S.count((v, ap.salt), True, {"v": v, "v2": v2, "counts": cnt})
+    if same > 0.5 * tot:
+        ctx.oracle_fail(f"two different buckets (values differing in the 11th digit) received identical counts in {same}/{tot} salts", {"same": same, "n": tot}, "bucket-identity")
+
+
 def run(ctx, built):
+    bucket_identity(ctx)
     AS.stream_hash(ctx, built)
     AS.stream_cnt(ctx, built, oracle(ctx))
     metamorphic(ctx)
@@ -75,5 +99,5 @@ def run(ctx, built):
 
 def search(ctx, seeds):
     sub = Ctx(ctx.pid, "quick", ctx.seed + 15485863)
-    AS.stream_cnt(sub, False, oracle(sub)); metamorphic(sub)
+    AS.stream_cnt(sub, False, oracle(sub)); metamorphic(sub); bucket_identity(sub)
     ctx.oracle_failures += sub.oracle_failures
